@@ -8,14 +8,18 @@ from vp.val import cN, cbool, clist, cpair, copt
 
 ROLES = {0: 'ebgp', 1: 'rsclient', 2: 'ibgp', 3: 'rrclient', 4: 'confed'}
 
-def mk_attr(tok, lp=None, segs=None, origin=None, clen=None, oid=None, llgr=False, nollgr=False, mm=None):
-    return dict(tok=tok, lp=lp, segs=segs, origin=origin, clen=clen, oid=oid, llgr=llgr, nollgr=nollgr, mm=mm)
+def mk_attr(tok, lp=None, segs=None, origin=None, clen=None, oid=None, llgr=False, nollgr=False, mm=None, orig=None):
+    """orig: token of the attribute block as received (original_attr) when import policy replaced it"""
+    return dict(tok=tok, lp=lp, segs=segs, origin=origin, clen=clen, oid=oid, llgr=llgr, nollgr=nollgr, mm=mm, orig=orig)
+
+def orig_tok(a):
+    return a.get('orig') if a.get('orig') is not None else a['tok']
 
 def src_val(s): return list(s)
 def attr_val(a):
     o = lambda x: [] if x is None else [x]
     return [a['tok'], o(a['lp']), o(None if a['segs'] is None else [list(x) for x in a['segs']]), o(a['origin']),
-            o(a['clen']), o(a['oid']), 1 if a['llgr'] else 0, 1 if a['nollgr'] else 0, o(a['mm'])]
+            o(a['clen']), o(a['oid']), 1 if a['llgr'] else 0, 1 if a['nollgr'] else 0, o(a['mm']), orig_tok(a)]
 
 def op_val(o):
     t = o[0]
@@ -42,9 +46,9 @@ def c_attr(a):
     on = lambda x: copt(None if x is None else cN(x))
     segs = copt(None if a['segs'] is None else clist([cpair(cN(t), cN(n)) for t, n in a['segs']]))
     return ('{| a_tok := %s; a_lp := %s; a_segs := %s; a_origin := %s; a_clen := %s; a_oid := %s; '
-            'a_llgr := %s; a_nollgr := %s; a_mm := %s |}') % (
+            'a_llgr := %s; a_nollgr := %s; a_mm := %s; a_orig := %s |}') % (
         cN(a['tok']), on(a['lp']), segs, on(a['origin']), on(a['clen']), on(a['oid']),
-        cbool(a['llgr']), cbool(a['nollgr']), on(a['mm']))
+        cbool(a['llgr']), cbool(a['nollgr']), on(a['mm']), cN(orig_tok(a)))
 
 DK = ['DKAll', 'DKStale', 'DKLlgr', 'DKNoLlgr']
 def op_coq(o):
@@ -111,7 +115,8 @@ def canon_obs(obs):
     out = []
     for step in obs:
         chs, lim, st = step
-        loc, dests, tstate, stats, ctrs, bad, rsl = st
+        loc, dests, tstate, stats, ctrs, bad, rsl = st[:7]
+        views = st[7] if len(st) > 7 else [[], [], []]
         # destination ids: only the id<->prefix relation of the step is compared
         rel = {}
         for c in list(chs) + list(loc):
@@ -125,7 +130,9 @@ def canon_obs(obs):
             loc = [[c[0], 0] + c[2:] for c in loc]
         out.append([sorted(chs, key=lambda c: c[0]), lim,
                     [sorted(loc, key=lambda c: c[0]), sorted(dests, key=lambda d: d[0]), tstate, stats, ctrs, bad,
-                     [[a, sorted(per, key=lambda x: x[0])] for a, per in rsl]]])
+                     [[a, sorted(per, key=lambda x: x[0])] for a, per in rsl],
+                     [sorted(views[0], key=lambda x: x[0]), sorted(views[1], key=lambda x: x[0]),
+                      [[a, sorted(per, key=lambda x: x[0])] for a, per in views[2]]]]])
     return out
 
 # ------------------------------------------------------------- reference RIB
@@ -237,7 +244,8 @@ def attr_pool(rng, evpn, n=6, long_paths=False):
                             oid=rng.choice([None, None, 5, 9, 20]),
                             llgr=rng.random() < 0.12,
                             nollgr=rng.random() < 0.15,
-                            mm=(rng.choice([None, 1, 2, 2, 7]) if evpn else None)))
+                            mm=(rng.choice([None, 1, 2, 2, 7]) if evpn else None),
+                            orig=(1100 + k if k % 3 == 1 else None)))
     return pool
 
 # sources: (tok, addr, rid, role); tokens 11..13 are a second session of peers 1..3
